@@ -236,6 +236,13 @@ def check_text_pairs(case, ev):
 
     fam, cfg, toks = case["fam"], case["cfg"], case["toks"]
     W = 32 if fam == 4 else 128
+    if case.get("img_of") is not None and fam == 4:
+        # the address whose image is a chosen mask-shaped value, and its last-bit neighbour
+        u, exc = guarded(G.mk4, cfg)
+        if exc is not None:
+            return core.exc_finding(exc, case, "ctor/")
+        x = u.deanonymize(case["img_of"])
+        toks = [t for t in toks] + [[n, ""] for n in (x, x ^ 1, x ^ 256) if not G.is_mask(n)]
     mk_text = (lambda n: G.v4_canon(n)) if fam == 4 else (lambda n: str(ipaddress.IPv6Address(n)))
     line = " ".join(mk_text(n) + suf for n, suf in toks)
     if case.get("prelude"):
@@ -357,7 +364,10 @@ def _text_case(draw):
     prelude = None
     if draw(st.integers(0, 2)) == 0:
         prelude = {"cfg": draw(G.config(networks="never")), "idx": draw(st.lists(st.integers(0, len(toks) - 1), min_size=1, max_size=len(toks), unique=True))}
-    return {"fam": fam, "cfg": cfg, "toks": toks, "via": draw(st.sampled_from(["line", "line", "io"])), "prelude": prelude}
+    from .c05 import MASKS
+
+    img_of = draw(st.sampled_from(MASKS)) if fam == 4 and draw(st.integers(0, 3)) == 0 else None
+    return {"fam": fam, "cfg": cfg, "toks": toks, "via": draw(st.sampled_from(["line", "line", "io"])), "prelude": prelude, "img_of": img_of}
 
 
 def t_text(shard, nshards, seed, ev, known, n=500):
